@@ -515,6 +515,37 @@ func runC19(o *cli.Opts, run *evid.Run) {
 		run.Case("must-fail/"+strings.Split(j.name, "/")[0], true, key, bad, sample)
 	})
 	run.Stage("must-fail")
+	// 5. commands sharing files: setup over a path that already holds a keys file
+	if run.Wants("C19/shared-path") && len(live) >= 2 && live[0].d == live[1].d && live[0].b == live[1].b && live[0].mode != live[1].mode {
+		a, b := live[0], live[1] // a's keys are copied to K, then K is set up again for b's mode
+		K := filepath.Join(o.Scratch, "c19-shared.ps")
+		if data, err := os.ReadFile(a.keys); err == nil {
+			os.WriteFile(K, data, 0o644)
+			// an unknown mode must fail even though a valid keys file sits at the output path
+			res := proc.Run(bin, nil, 10*time.Minute, nil, "setup", "--mode", "bogus", "--tree-depth", fmt.Sprint(a.d), "--batch-size", fmt.Sprint(a.b), "--output", K)
+			run.Add("cli_invocations", 1)
+			if res.Exit == 0 {
+				run.Violate("C19/shared-path/bogus-mode", "setup with an unknown mode exits 0 when the output path already holds a keys file", nil)
+			}
+			run.Case("must-fail/setup-over-existing", true, "bogus", res.Exit == 0, map[string]any{"exit": res.Exit})
+			res = proc.Run(bin, nil, 30*time.Minute, nil, "setup", "--mode", b.mode, "--tree-depth", fmt.Sprint(b.d), "--batch-size", fmt.Sprint(b.b), "--output", K)
+			run.Add("cli_invocations", 1)
+			if res.Exit != 0 {
+				run.Violate("C19/shared-path/setup", fmt.Sprintf("setup for %s over an existing %s keys file exits %d", b.mode, a.mode, res.Exit), nil)
+			} else {
+				gp := proc.Run(bin, nil, 5*time.Minute, nil, "gen-test-params", "--mode", b.mode, "--tree-depth", fmt.Sprint(b.d), "--batch-size", fmt.Sprint(b.b))
+				pr := proc.Run(bin, gp.Stdout, 10*time.Minute, nil, "prove", "--mode", b.mode, "--keys-file", K)
+				run.Add("cli_invocations", 2)
+				okPipe := gp.Exit == 0 && pr.Exit == 0
+				if !okPipe {
+					run.Violate("C19/shared-path/pipeline", fmt.Sprintf("after `setup --mode %s` over a path that held %s keys, gen-test-params | prove --mode %s fails (exit %d): the pipeline does not compose through shared files: %s", b.mode, a.mode, b.mode, pr.Exit, tailOf(pr.Stderr)), nil)
+				}
+				run.Case("pipeline/setup-over-existing-keys", true, "shared", okPipe, map[string]any{"first_mode": a.mode, "second_mode": b.mode, "depth": b.d, "batch": b.b})
+			}
+			os.Remove(K)
+		}
+	}
+	run.Stage("shared-path")
 	for _, s := range live {
 		os.Remove(s.keys)
 	}
